@@ -22,5 +22,6 @@ CONSTANTS
   CRoot = 3
   DropLockBug = FALSE
   CachedLevelBug = FALSE
-INVARIANTS CTypeOK MutualExclusion RefinesWhenFree LPWWhenFree LockedReturnsAtomic LockFreeReadOK NoDeadlock
+  StaleParentReadBug = FALSE
+INVARIANTS CTypeOK NewChildLevelOK MutualExclusion RefinesWhenFree LPWWhenFree LockedReturnsAtomic LockFreeReadOK NoDeadlock
 CHECK_DEADLOCK FALSE
